@@ -23,10 +23,10 @@ PLAN = plan(60, 900, ["handshake", "handshake", "migration", "fault_free", "zero
 SIZES = (1200, 1200, 1252, 1350, 1472, 1280, 1400)
 PROFILES = {
     "handshake": {"faults": ("drop", "dup", "delay", "spoof", "timer-late", "clock"), "datagram_sizes": SIZES,
-                  "t_adv_max": 3.0, "server_certs": True},
+                  "t_adv_max": 3.0, "big_cert_p": 0.3, "blackout_on_accept_p": 0.2},
     "migration": {"faults": ("drop", "dup", "delay", "spoof", "rebind", "blackout", "timer-late"),
-                  "datagram_sizes": SIZES, "server_certs": True},
-    "fault_free": {"fault_free": True, "datagram_sizes": SIZES, "server_certs": True},
+                  "datagram_sizes": SIZES, "big_cert_p": 0.3, "blackout_on_accept_p": 0.2},
+    "fault_free": {"fault_free": True, "datagram_sizes": SIZES, "big_cert_p": 0.3},
     "zero_rtt": {"faults": ("drop", "dup", "delay", "blackout", "timer-late"), "datagram_sizes": SIZES,
                  "t_adv_max": 3.0, "max_ops": 5},
 }
